@@ -16,7 +16,7 @@ from .core import MachineryError
 SVCS = [{"name": "a1.svc", "type": "login"}, {"name": "b2.svc", "type": "combined"}, {"name": "c3.svc", "type": "dronecheck"}]
 # the second rule has no class entry: its (long) name is the class of the clients it matches
 RULES = [{"name": "ra", "account": "?*", "class": "cacct", "trust_username": "yes"},
-         {"name": "rm" + "m" * 70, "username": "c1*"}, {"name": "rz", "class": "cdef"}]
+         {"name": "rm" + "m" * 70, "hostname": "h1*"}, {"name": "rz", "class": "cdef"}]
 LOGS = {
     "none": None,
     "all": [("*.*", "file:all.log")],
